@@ -508,7 +508,12 @@ def gen_cases(rng, tier, ctx):
         cases.append(dict(c, side='corr'))
         cases.append(dict(c, side='spec'))
     for i in range(n_flat):
-        cases.append(X.gen_flat(rng, g))
+        c = X.gen_flat(rng, g)
+        if c['op'][0] == 'flatten':
+            cases.append(dict(c, side='corr'))
+            cases.append(dict(c, side='spec'))
+        else:
+            cases.append(c)
     k = 0
     while k < n_vol:
         c = g.prog_case(rng.choice([2, 2, 3, 3, 4]))
@@ -812,6 +817,11 @@ def to_coq(case, obs):
         o = 'None' if a is None else '(Some (%s, %s))' % (g_q(a['dur']), g_windows(a['ws']))
         return '(CRw %s %s %s %s %s %s)' % (vlib.gbool(case.get('side') == 'spec'), X.g_rw(case['op']), g_loop(case['loop']), g_q(obs['dur0']),
                                          g_windows(obs['ws0']), o)
+    if kind == 'flat' and obs.get('steps') is not None and obs.get('after') is not None:
+        steps = vlib.glist(lambda st: '(%s, %s)' % (vlib.glist(vlib.gnat, st[0]), X.g_rw(st[1])), obs['steps'])
+        a = obs['after']
+        return '(CFlat %s %s %s %s %s %s %s)' % (vlib.gbool(case.get('side') == 'spec'), g_loop(case['loop']), steps,
+                                                  g_q(obs['dur0']), g_windows(obs['ws0']), g_q(a['dur']), g_windows(a['ws']))
     if kind == 'flat' or 'trace_unavailable' in obs:
         return 'CPyOnly'
     if kind == 'trace' and 'trace' in obs:
@@ -915,6 +925,8 @@ def classify(case, obs):
     kind = case['kind']
     if kind in ('rw', 'vol') and case.get('side') != 'spec':
         return None
+    if kind == 'flat' and case.get('side') == 'corr':
+        return None
     if kind == 'rw' and obs.get('after') is not None and case['op'][0] in ('unroll', 'unroll_children'):
         # known: only own windows of the unrolled loop are missing, nothing else changed
         rest = list(map(tuple, obs['ws0']))
@@ -947,7 +959,7 @@ def py_spec(case, obs):
         return 'plotting.render(..., render_measurements=True)[2] differs from Loop.get_measurement_windows()'
     if case['kind'] == 'vol' and case.get('side') == 'corr' and 'ws2r' in obs and obs['ws2r'] != obs['ws2']:
         return 'after a volatile update plotting reports other windows than Loop.get_measurement_windows()'
-    if case['kind'] == 'flat':
+    if case['kind'] == 'flat' and case.get('side') != 'corr':
         v = X.flat_verdict(case, obs)
         if v:
             return v[1]
